@@ -34,7 +34,8 @@ static const char* SEED[4] = {
 };
 static const char REPL[] = ">A-. \n\r\xC3*1/:cXJ";
 #define NREPL 16
-#define NSPECIAL 28      /* 10 oversized shapes + 6 lengths around the 512-byte buffer steps x 3 formats */
+#define NTWO 96          /* two files read into one msa: record counts on / next to the 512-record growth steps */
+#define NSPECIAL (28 + NTWO)    /* 10 oversized shapes + 6 lengths around the 512-byte buffer steps x 3 formats + two-file cases */
 
 struct mut { int kind; int pos; int arg; };      /* 0 none, 1 truncate at pos, 2 delete line, 3 duplicate line, 4 swap line with next, 5 replace byte pos by REPL[arg] */
 
@@ -166,6 +167,45 @@ uint64_t vh_total(int tier) { return secA(tier) + secB(tier); }
 
 static char* BUF;
 static size_t BUFN;
+static char* BUF2;      /* second input file, read into the same msa (two-file cases only) */
+static size_t BUF2N;
+static int EXPECT_N;
+
+/* n records in format fmt (0 FASTA, 1 Clustal, 2 MSF); short protein records, every one different */
+static size_t many_records(char* out, int n, int fmt, char tag)
+{
+        size_t o = 0;
+        int i;
+        static const char* V[4] = {"LKWDELAV", "LKWELAV", "LRWDELGV", "LKWDDLAV"};
+        static const char* G[4] = {"LKWDELAV", "LKW-ELAV", "LRWDELGV", "LKWDDLAV"};
+        if(fmt == 0){
+                for(i = 0; i < n; i++){
+                        o += (size_t)sprintf(out + o, ">%c%d\n%s%c\n", tag, i, V[i % 4], "ACDEFGHIKLMNPQRSTVWY"[(i / 4) % 20]);
+                }
+        }else if(fmt == 1){
+                o += (size_t)sprintf(out + o, "CLUSTAL W (1.83) multiple sequence alignment\n\n");
+                for(i = 0; i < n; i++){
+                        o += (size_t)sprintf(out + o, "%c%d      %s%c\n", tag, i, G[i % 4], "ACDEFGHIKLMNPQRSTVWY"[(i / 4) % 20]);
+                }
+        }else{
+                o += (size_t)sprintf(out + o, "!!AA_MULTIPLE_ALIGNMENT 1.0\n\n x.msf  MSF: 9  Type: P  Check: 1  ..\n\n");
+                for(i = 0; i < n; i++){
+                        o += (size_t)sprintf(out + o, " Name: %c%d  Len: 9  Check: 1  Weight: 1.00\n", tag, i);
+                }
+                o += (size_t)sprintf(out + o, "\n//\n\n");
+                for(i = 0; i < n; i++){
+                        const char* g = G[i % 4];
+                        char row[16];
+                        int j;
+                        for(j = 0; g[j]; j++){
+                                row[j] = g[j] == '-' ? '.' : g[j];
+                        }
+                        row[j] = 0;
+                        o += (size_t)sprintf(out + o, "%c%d  %s%c\n", tag, i, row, "ACDEFGHIKLMNPQRSTVWY"[(i / 4) % 20]);
+                }
+        }
+        return o;
+}
 
 static void build_input(uint64_t id, int tier, char* desc, size_t dn)
 {
@@ -174,6 +214,7 @@ static void build_input(uint64_t id, int tier, char* desc, size_t dn)
                 BUF = malloc(1 << 22);
         }
         BUFN = 0;
+        BUF2N = 0;
         if(id < secA(tier)){
                 uint64_t p = 1, x = id;
                 int d, i, tk[8];
@@ -238,6 +279,22 @@ static void build_input(uint64_t id, int tier, char* desc, size_t dn)
                         size_t o = 0;
                         int i, k = (int)id;
                         (void)tmp2;
+                        if(k >= 28){
+                                /* two files into one msa: the first leaves the sequence table exactly full, one short of full, ... */
+                                static const int N1[8] = {1, 2, 511, 512, 513, 1023, 1024, 1025};
+                                static const int N2[4] = {1, 3, 512, 513};
+                                int q = k - 28, n1 = N1[q % 8], fmt = (q / 8) % 3, n2 = N2[q / 24];
+                                if(!BUF2){
+                                        BUF2 = malloc(1 << 20);
+                                }
+                                BUFN = many_records(BUF, n1, fmt, 'r');
+                                BUF2N = many_records(BUF2, n2, 0, 'z');
+                                EXPECT_N = n1 + n2;
+                                if(desc){
+                                        snprintf(desc, dn, "B: two files into one msa: %d records (%s) then %d records (fasta)", n1, fmt == 0 ? "fasta" : (fmt == 1 ? "clustal" : "msf"), n2);
+                                }
+                                return;
+                        }
                         switch(k){
                         case 0: case 1: {       /* huge name: 300 / 5000 bytes, FASTA */
                                 int nl = k ? 5000 : 300;
@@ -382,6 +439,23 @@ static int pipeline(uint64_t id, int tier, int* success)
         if(!m){
                 vh_count("read_found_nothing");
                 return VH_OK;
+        }
+        if(BUF2N){
+                const char* path2 = vh_tmp("c05.in2");
+                int before = m->numseq;
+                vh_write_file(path2, BUF2, BUF2N);
+                rc = kalign_read_input((char*)path2, &m, 1);
+                if(rc != OK){
+                        vh_fail("sem:second-file-rejected", "a second well-formed file of the same kind was refused");
+                        if(m){
+                                kalign_free_msa(m);
+                        }
+                        return VH_OK;
+                }
+                if(m->numseq != EXPECT_N){
+                        vh_fail("sem:two-files-record-count", "%d records before the second read, %d after, the files hold %d", before, m->numseq, EXPECT_N);
+                }
+                vh_count("two_file_reads");
         }
         {
                 /* what the reader reported */
